@@ -10,12 +10,17 @@ use crate::ogre_std::{
         },
         ogre_sync,
     };
+#[cfg(not(feature = "verif"))]
 use std::{
     time::Duration,
     sync::atomic::{AtomicU32, AtomicBool, Ordering::Relaxed},
     pin::Pin,
     task::Waker,
 };
+#[cfg(feature = "verif")]
+use std::{time::Duration, sync::atomic::Ordering::Relaxed, pin::Pin, task::Waker};
+#[cfg(feature = "verif")]
+use crate::verif::{AtomicU32, AtomicBool};
 use std::cell::UnsafeCell;
 use minstant::Instant;
 
@@ -89,6 +94,8 @@ StreamsManagerBase<MAX_STREAMS> {
                            self.streams_manager_name, self.created_streams_count.load(Relaxed), self.finished_streams_count.load(Relaxed)),
         };
         let keep_streams_running = unsafe { &mut * self.keep_streams_running.get() };
+        #[cfg(feature = "verif")]
+        crate::verif::yield_value("keep_write", &keep_streams_running[stream_id as usize] as *const bool as usize, 1);
         keep_streams_running[stream_id as usize] = true;
         self.sync_vacant_and_used_streams();
         stream_id
@@ -98,11 +105,17 @@ StreamsManagerBase<MAX_STREAMS> {
     #[inline(always)]
     pub fn wake_stream(&self, stream_id: u32) {
         let wakers = unsafe { &* self.wakers.get() };
+        #[cfg(feature = "verif")]
+        crate::verif::yield_value("wakers_read", unsafe {wakers.get_unchecked(stream_id as usize)} as *const Option<Waker> as usize,
+                                  unsafe {wakers.get_unchecked(stream_id as usize)}.is_some() as u64);
         match unsafe {wakers.get_unchecked(stream_id as usize)} {
             Some(waker) => waker.wake_by_ref(),
             None => {
                 // try again, syncing
                 ogre_sync::lock(&self.wakers_lock);
+                #[cfg(feature = "verif")]
+                crate::verif::yield_value("wakers_read", unsafe {wakers.get_unchecked(stream_id as usize)} as *const Option<Waker> as usize,
+                                          unsafe {wakers.get_unchecked(stream_id as usize)}.is_some() as u64);
                 if let Some(waker) = unsafe {wakers.get_unchecked(stream_id as usize)} {
                     waker.wake_by_ref();
                 }
@@ -126,6 +139,9 @@ StreamsManagerBase<MAX_STREAMS> {
     pub fn keep_stream_running(&self, stream_id: u32) -> bool {
         unsafe {
             let keep_streams_running = &* self.keep_streams_running.get();
+            #[cfg(feature = "verif")]
+            crate::verif::yield_value("keep_read", keep_streams_running.get_unchecked(stream_id as usize) as *const bool as usize,
+                                      *keep_streams_running.get_unchecked(stream_id as usize) as u64);
             *keep_streams_running.get_unchecked(stream_id as usize)
         }
     }
@@ -148,6 +164,8 @@ StreamsManagerBase<MAX_STREAMS> {
     /// Also guarantees that it will be awoken to react to the command immediately
     pub fn cancel_stream(&self, stream_id: u32) {
         let keep_streams_running = unsafe { &mut * self.keep_streams_running.get() };
+        #[cfg(feature = "verif")]
+        crate::verif::yield_value("keep_write", &keep_streams_running[stream_id as usize] as *const bool as usize, 0);
         keep_streams_running[stream_id as usize] = false;
         self.wake_stream(stream_id);
     }
@@ -157,6 +175,8 @@ StreamsManagerBase<MAX_STREAMS> {
     pub fn cancel_all_streams(&self) {
         let used_streams = unsafe { &* self.used_streams.get() };
         for stream_id in used_streams.iter() {
+            #[cfg(feature = "verif")]
+            crate::verif::yield_value("used_read", stream_id as *const u32 as usize, *stream_id as u64);
             if *stream_id == u32::MAX {
                 break
             }
@@ -173,6 +193,8 @@ StreamsManagerBase<MAX_STREAMS> {
             () => {
                 let waker = waker.clone();
                 ogre_sync::lock(&self.wakers_lock);
+                #[cfg(feature = "verif")]
+                crate::verif::yield_value("wakers_write", unsafe { wakers.get_unchecked_mut(stream_id as usize) } as *const Option<Waker> as usize, 1);
                 let waker = unsafe { wakers.get_unchecked_mut(stream_id as usize).insert(waker) };
                 ogre_sync::unlock(&self.wakers_lock);
                 // the producer might have just woken the old version of the waker,
@@ -182,6 +204,9 @@ StreamsManagerBase<MAX_STREAMS> {
             }
         }
 
+        #[cfg(feature = "verif")]
+        crate::verif::yield_value("wakers_read", unsafe { wakers.get_unchecked_mut(stream_id as usize) } as *const Option<Waker> as usize,
+                                  unsafe { wakers.get_unchecked_mut(stream_id as usize) }.is_some() as u64);
         match unsafe { wakers.get_unchecked_mut(stream_id as usize) } {
             Some(registered_waker) => {
                 if !registered_waker.will_wake(waker) {
@@ -207,6 +232,8 @@ StreamsManagerBase<MAX_STREAMS> {
     pub fn report_stream_dropped(&self, stream_id: u32) {
         let wakers = unsafe { &mut * self.wakers.get() };
         ogre_sync::lock(&self.wakers_lock);
+        #[cfg(feature = "verif")]
+        crate::verif::yield_value("wakers_write", &wakers[stream_id as usize] as *const Option<Waker> as usize, 0);
         wakers[stream_id as usize] = None;
         ogre_sync::unlock(&self.wakers_lock);
         self.finished_streams_count.fetch_add(1, Relaxed);
@@ -237,18 +264,24 @@ StreamsManagerBase<MAX_STREAMS> {
                 Some(next_vacant_stream_id) => {
                     for used_stream_id in i .. *next_vacant_stream_id {
                         last_used_stream_id += 1;
+                        #[cfg(feature = "verif")]
+                        crate::verif::yield_value("used_write", unsafe { used_streams.get_unchecked_mut(last_used_stream_id as usize) } as *const u32 as usize, used_stream_id as u64);
                         unsafe { *used_streams.get_unchecked_mut(last_used_stream_id as usize)  = used_stream_id };
                     }
                     i = *next_vacant_stream_id + 1;
                 }
                 None => {
                     last_used_stream_id += 1;
+                    #[cfg(feature = "verif")]
+                    crate::verif::yield_value("used_write", unsafe { used_streams.get_unchecked_mut(last_used_stream_id as usize) } as *const u32 as usize, i as u64);
                     unsafe { *used_streams.get_unchecked_mut(last_used_stream_id as usize) = i };
                     i += 1;
                 }
             }
         }
         for i in (last_used_stream_id + 1) as usize .. MAX_STREAMS {
+            #[cfg(feature = "verif")]
+            crate::verif::yield_value("used_write", unsafe { used_streams.get_unchecked_mut(i) } as *const u32 as usize, u32::MAX as u64);
             unsafe { *used_streams.get_unchecked_mut(i) = u32::MAX };
         }
         ogre_sync::unlock(&self.streams_lock);
@@ -325,6 +358,24 @@ StreamsManagerBase<MAX_STREAMS> {
 
 }
 
+
+/// verification hooks: lets the external harness name the shared cells
+#[cfg(feature = "verif")]
+impl<const MAX_STREAMS:  usize>
+StreamsManagerBase<MAX_STREAMS> {
+    /// addresses of (wakers[0], keep_streams_running[0], used_streams[0], wakers_lock, streams_lock, used_streams_count,
+    /// created_streams_count, finished_streams_count, vacant_streams' guard) and the size of a waker slot
+    pub fn verif_addrs(&self) -> ([usize; 9], usize) {
+        unsafe {
+            ([(&*self.wakers.get()).as_ptr() as usize, (&*self.keep_streams_running.get()).as_ptr() as usize,
+              (&*self.used_streams.get()).as_ptr() as usize,
+              &self.wakers_lock as *const AtomicBool as usize, &self.streams_lock as *const AtomicBool as usize,
+              &self.used_streams_count as *const AtomicU32 as usize, &self.created_streams_count as *const AtomicU32 as usize,
+              &self.finished_streams_count as *const AtomicU32 as usize, self.vacant_streams.verif_addrs().0[2]],
+             std::mem::size_of::<Option<Waker>>())
+        }
+    }
+}
 
 // TODO: 2023-06-14: Needed while `SyncUnsafeCell` is still not stabilized
 unsafe impl<const MAX_STREAMS:  usize>
